@@ -268,8 +268,22 @@ struct Ex<'a> {
     ctor: &'static str,
 }
 
+/// the property this process is checking (13 / 14; 0 = keep both): violations carrying the other property's tag are
+/// dropped where they arise, so that they cannot crowd the kept (shortest) cases out of the report
+static WHICH: std::sync::atomic::AtomicU8 = std::sync::atomic::AtomicU8::new(0);
+fn wanted(prop: &str) -> bool {
+    match WHICH.load(std::sync::atomic::Ordering::Relaxed) {
+        13 => prop == "C13",
+        14 => prop == "C14",
+        _ => true,
+    }
+}
+
 impl Ex<'_> {
     fn viol(&mut self, prop: &str, trace: &[usize], what: &str, exp: String, obs: String) {
+        if !wanted(prop) {
+            return;
+        }
         let all = ops();
         let tr: Vec<String> = trace.iter().map(|&i| format!("{:?}", all[i])).collect();
         let replay = format!("{}|{}|{}|{}", hexs(self.input), self.ctor, self.base, trace.iter().map(|i| i.to_string()).collect::<Vec<_>>().join(","));
@@ -363,6 +377,9 @@ pub fn explore_input(rep: &mut Report, input: &str, ctor: &'static str, base: us
             let real = match real {
                 Err(pn) => {
                     ex.viol("C14", &tr2, "operation panicked", format!("{:?}", m.res), format!("panic: {pn}"));
+                    // C13 speaks about the parser every operation sequence ends in: an operation that panics where the
+                    // reference returns (a parser or an error) leaves no position to describe
+                    ex.viol("C13", &tr2, "operation panicked (no parser and no error, so no position is reported)", format!("{:?}", m.res), format!("panic: {pn}"));
                     continue;
                 }
                 Ok(r) => r,
@@ -470,6 +487,7 @@ fn protocols(rep: &mut Report, input: &str) {
 }
 
 pub fn run(which: &str, tier: Tier, rep: &mut Report) -> (String, String) {
+    WHICH.store(if which == "C13" { 13 } else { 14 }, std::sync::atomic::Ordering::Relaxed);
     let atoms = [" ", "a", ",", "ñ", "1", "-", "true"];
     let n = tier.pick(3, 4, 1);
     let mut inputs = strings_over(&atoms, n);
@@ -483,6 +501,11 @@ pub fn run(which: &str, tier: Tier, rep: &mut Report) -> (String, String) {
     // white-space tests must not look into multi-byte chars; seed C13-9 masked the high bit)
     for c in '\u{80}'..='\u{BF}' {
         inputs.push(format!(" {c} "));
+    }
+    // every ASCII control / separator next to real white space (trim_ascii strips exactly \t \n \x0C \r and space)
+    for c in ['\x0B', '\x1C', '\x1D', '\x1E', '\x1F', '\x08', '\x0E', '\x7F', '\0'] {
+        inputs.push(format!(" {c} a{c}\t"));
+        inputs.push(format!("{c} a {c}"));
     }
     for c in ['\u{A0}', '\u{2028}', '\u{3000}', '\u{1680}', '\u{10A0}', '\u{1F3A0}'] {
         inputs.push(format!("{c}\t a{c}"));
@@ -545,7 +568,7 @@ pub fn run(which: &str, tier: Tier, rep: &mut Report) -> (String, String) {
     };
     (
         rule.into(),
-        format!("inputs: all strings of <= {n} atoms over {atoms:?} ({}) + 12 structured longer inputs + 70 inputs placing every continuation byte value and 6 Unicode white-space chars next to ASCII white space; constructors new, with_start_offset(_,0), with_start_offset(_,5); {} operations (patterns a , ñ \"a,\" \",,\" \" \" \"\" 'a' 'ñ' ','; skip/skip_back 0,1,2,3,5,1000,usize::MAX; parse_u8/i8/u64(parse_with!)/i128/bool); protocol family over {{a,b}}<= {} with delimiters aab, aba, ab, aa", inputs.len(), ops().len(), tier.pick(6, 8, 0)),
+        format!("inputs: all strings of <= {n} atoms over {atoms:?} ({}) + 12 structured longer inputs + 88 inputs placing every continuation byte value, 9 ASCII controls / separators and 6 Unicode white-space chars next to ASCII white space; constructors new, with_start_offset(_,0), with_start_offset(_,5); {} operations (patterns a , ñ \"a,\" \",,\" \" \" \"\" 'a' 'ñ' ','; skip/skip_back 0,1,2,3,5,1000,usize::MAX; parse_u8/i8/u64(parse_with!)/i128/bool); protocol family over {{a,b}}<= {} with delimiters aab, aba, ab, aa", inputs.len(), ops().len(), tier.pick(6, 8, 0)),
     )
 }
 
@@ -576,6 +599,7 @@ fn protocols_ab(rep: &mut Report, input: &str) {
 }
 
 pub fn replay(which: &str, case: &str, rep: &mut Report) {
+    WHICH.store(if which == "C13" { 13 } else { 14 }, std::sync::atomic::Ordering::Relaxed);
     // hex(input)|ctor|base|trace   or   hex(input)|proto|0|hex(delim)
     let p: Vec<&str> = case.split('|').collect();
     let input = unhexs(p[0]);
